@@ -15,6 +15,17 @@ fn raw_json(r: &sourcemap::RawToken) -> Value {
     json!([num(r.dst_line), num(r.dst_col), idx(r.src_id), num(r.src_line), num(r.src_col), idx(r.name_id), r.is_range as u8])
 }
 
+/// what the builder's own getters report
+fn observe_builder(b: &SourceMapBuilder) -> Value {
+    let mut n = 0u32;
+    while b.get_source(n).is_some() { n += 1; }
+    json!({"file": opt_str(b.get_file()), "root": match b.get_source_root() { Some(r) => json!([cps(r)]), None => json!([]) },
+           "sources": (0..n).map(|i| cps(b.get_source(i).unwrap())).collect::<Vec<_>>(),
+           "contents": (0..n).map(|i| opt_str(b.get_source_contents(i))).collect::<Vec<_>>(),
+           "has": (0..n).map(|i| b.has_source_contents(i)).collect::<Vec<_>>(),
+           "beyond": match b.get_source(n) { Some(s) => json!([cps(s)]), None => json!([]) }})
+}
+
 fn observe(sm: &SourceMap) -> Value {
     let mut p = proj_sm(sm);
     let mut bytes = vec![];
@@ -29,7 +40,7 @@ fn observe(sm: &SourceMap) -> Value {
 /// fill every field the spec's BApply may look at
 pub fn full_call(c: &Value) -> Value {
     let mut o = json!({"op": c["op"], "s": [], "n": "", "pos": [0, 0, 0, 0, 0], "src": [], "name": [], "sid": -1, "nid": -1,
-                       "c": [], "id": 0, "r": [], "f": [], "d": []});
+                       "c": [], "id": 0, "r": [], "f": [], "d": [], "prefixes": []});
     for (k, v) in c.as_object().unwrap() { o[k] = v.clone(); }
     o
 }
@@ -64,16 +75,31 @@ pub fn run(case: &Value, em: &mut Emitter) {
                         "set_source_root" => b.set_source_root(ocps(&o["r"])),
                         "set_file" => b.set_file(ostr(&o["f"])),
                         "set_debug_id" => b.set_debug_id(ostr(&o["d"]).map(|s| s.parse().unwrap())),
+                        "b_set_source" => b.set_source(u(&o["id"]), &cps_to_string(&o["s"])),
+                        "b_strip_prefixes" => {
+                            let ps: Vec<String> = o["prefixes"].as_array().unwrap().iter().map(cps_to_string).collect();
+                            b.strip_prefixes(&ps);
+                        }
+                        "add_token" => {
+                            // the token of a one-token donor map carrying the given source / name: logged as the `add` it stands for
+                            let p = &o["pos"];
+                            let donor = SourceMap::new(None, vec![sourcemap::RawToken { dst_line: u(&p[0]), dst_col: u(&p[1]), src_line: u(&p[2]), src_col: u(&p[3]),
+                                src_id: if o["src"].as_array().unwrap().is_empty() { !0 } else { 0 }, name_id: if o["name"].as_array().unwrap().is_empty() { !0 } else { 0 }, is_range: u(&p[4]) != 0 }],
+                                ostr(&o["name"]).into_iter().map(std::sync::Arc::from).collect(), ocps(&o["src"]).into_iter().map(std::sync::Arc::from).collect(), None);
+                            let r = b.add_token(&donor.get_token(0).unwrap(), true);
+                            ret = raw_json(&r);
+                        }
                         "into_sourcemap" => {
                             let sm = b.into_sourcemap();
                             obs = json!([observe(&sm)]);
                             next = Obj::M(Box::new(sm));
-                            return json!({"k": "ok", "ret": ret, "obs": obs});
+                            return json!({"k": "ok", "ret": ret, "obs": obs, "bobs": []});
                         }
                         _ => return json!({"k": "badop"}),
                     }
+                    let bobs = json!([observe_builder(&b)]);
                     next = Obj::B(b);
-                    json!({"k": "ok", "ret": ret, "obs": obs})
+                    json!({"k": "ok", "ret": ret, "obs": obs, "bobs": bobs})
                 }
                 Obj::M(mut m) => {
                     match op.as_str() {
@@ -89,12 +115,14 @@ pub fn run(case: &Value, em: &mut Emitter) {
                     }
                     let obs = json!([observe(&m)]);
                     next = Obj::M(m);
-                    json!({"k": "ok", "ret": 0, "obs": obs})
+                    json!({"k": "ok", "ret": 0, "obs": obs, "bobs": []})
                 }
                 Obj::Gone => json!({"k": "gone"}),
             }
         });
         obj = next;
+        let mut o = o;
+        if op == "add_token" { o["op"] = json!("add"); }
         em.emit(&op, o, out);
     }
 }
@@ -102,6 +130,36 @@ pub fn run(case: &Value, em: &mut Emitter) {
 const SRC: &[&str] = &["a", "", "/abs/x", "http://h/y", "https://h/z", "b/c.js", "a", "httpx", "ü", "d", "e", "/", "f//", "g", "http:"];
 const ROOT: &[&str] = &["", "r", "r/", "r//", "/", "//", "http://cdn/", "x", "x/", "x//", "./rel", "webpack://", "webpack:///"];
 const NAMES: &[&str] = &["n", "", "m", "n", "𝒳", "k", "\"q\""];
+
+/// extension E06: C13's histories with builder-side renames (set_source, strip_prefixes) and add_token mixed in
+pub fn gen_e06(rng: &mut Rng, size: usize) -> Value {
+    let mut case = gen(rng, size);
+    let calls = case["calls"].as_array_mut().unwrap();
+    let cut = calls.iter().position(|c| c["op"] == "into_sourcemap").unwrap();
+    let mut out: Vec<Value> = vec![];
+    let mut nsrc = 0usize;   // lower bound of the number of sources registered so far (renames keep ids in range)
+    let mut seen: Vec<Value> = vec![];
+    for (k, c) in calls.iter().enumerate() {
+        if k < cut {
+            let s = if c["op"] == "add_source" { Some(c["s"].clone()) } else if c["op"] == "add" && !c["src"].as_array().unwrap().is_empty() { Some(c["src"][0].clone()) } else { None };
+            if let Some(s) = s { if !seen.contains(&s) { seen.push(s); nsrc += 1; } }
+            if c["op"] == "add" && rng.chance(1, 3) { let mut t = c.clone(); t["op"] = json!("add_token"); out.push(t); continue; }
+        }
+        out.push(c.clone());
+        if k < cut && nsrc > 0 && rng.chance(1, 5) {
+            if rng.chance(1, 2) {
+                let s = if rng.chance(1, 2) { rng.pick(&seen).clone() } else { cps(&gen_src_name(rng)) };
+                out.push(json!({"op": "b_set_source", "id": rng.below(nsrc as u64), "s": s}));
+            } else {
+                let a = rng.pick(&seen).as_array().unwrap().clone();
+                let kk = rng.below(a.len() as u64 + 1) as usize;
+                out.push(json!({"op": "b_strip_prefixes", "prefixes": [Value::Array(a[..kk].to_vec()), cps("r")]}));
+            }
+        }
+    }
+    case["calls"] = json!(out);
+    case
+}
 
 pub fn gen(rng: &mut Rng, size: usize) -> Value {
     // the string pools of this case: the fixed ones; generated names of mixed UTF-8 width and scheme-like
